@@ -4,7 +4,7 @@ META = {
     "property": "C10",
     "level": "exploration",
     "rule": (
-        "case i of seed s is generated from default_rng([s, i]); i%4 selects the kind: "
+        "case i of seed s is generated from default_rng([s, i]); (i + i//16)%4 selects the kind: "
         "0,1 a random field on a 1-4-d mesh (named dims/units, tolerance factor, bc, 0-3 "
         "possibly overlapping subregions, labels/unit present or absent, float/complex/int "
         "values, validity mask) written to .h5/.hdf5, read back and compared attribute by "
@@ -15,7 +15,7 @@ META = {
         "dtype, nvdim, labels none, unit none, number of subregions, bc class, corner "
         "typing, mesh signature); non-trivial when the mesh has >= 2 cells along some axis."
     ),
-    "cases": {"quick": 400, "thorough": 16000},
+    "cases": {"quick": 480, "thorough": 16000},
     "workers": {"quick": 8, "thorough": 16},
     "timeout": {"quick": 600, "thorough": 5400},
     "deciding": [
@@ -481,12 +481,12 @@ def legacy(ctx, tmp, use_sample):
 def run_case(ctx, i):
     tmp = tempfile.mkdtemp(prefix="c10_")
     try:
-        kind = i % 4
+        kind = ig.kind_of(i)
         if kind in (0, 1):
             random_field(ctx, tmp)
         elif kind == 2:
             corner_typing(ctx, tmp)
         else:
-            legacy(ctx, tmp, use_sample=(i % 64 == 3))
+            legacy(ctx, tmp, use_sample=((i // 4) % 16 == 0))
     finally:
         shutil.rmtree(tmp, ignore_errors=True)
